@@ -604,6 +604,14 @@ class Builder:
         qual = qual or self.con.qual
         fv = self.funcval(qual, bound)
         ctx = self.ctx
+        # vacuity guard: a pre-state the solver can REFUTE generates no obligations at all (the path is dropped; the ledger then
+        # reports the missing obligations), and every contract must reach its call on at least one satisfiable pre-state
+        if ctx.pc:
+            r, _ = ctx._check()
+            if r == z3.unsat:
+                raise E.PathEnd()
+        # (sat, or unknown for quantified pre-states: recorded either way so the cover does not flip with solver load)
+        ctx.obls.append(Obl("%s/cover:precondition-not-refuted" % self.name, ctx.path_id(), "cover", 0.0, "", "", "cover"))
         ctx.snap = ctx.snapshot()
         interp = ctx.interp
         init = {}
